@@ -246,7 +246,10 @@ const c04Base = `{
    "oauth": {"type": "oauth2", "flows": {"implicit": {"authorizationUrl": "https://example.com/a", "scopes": {}}}}
   },
   "examples": {"One": {"value": 1}, "Str": {"value": "t"}, "Detached": {"value": "d"}},
-  "links": {"Next": {"operationId": "getX"}, "Detached": {"operationId": "getX"}}
+  "links": {"Next": {"operationId": "getX"}, "Detached": {"operationId": "getX"}},
+  "callbacks": {"Cb": {"{$request.body#/url}": {"post": {"requestBody": {"content": {"application/json": {"schema": {"type": "string"}}}},
+                                                         "responses": {"200": {"description": "ok"}}}}},
+                "Detached": {"{$request.body#/d}": {"get": {"responses": {"204": {"description": "n"}}}}}}
  },
  "paths": {
   "/x/{id}": {
@@ -270,7 +273,9 @@ const c04Base = `{
    }
   },
   "/y": {
+   "servers": [{"url": "https://y.example.com"}],
    "put": {"requestBody": {"$ref": "#/components/requestBodies/Body"},
+           "servers": [{"url": "https://{v}.example.com/y", "variables": {"v": {"default": "a"}}}],
            "parameters": [{"name": "h", "in": "header", "schema": {"type": "array", "items": {"type": "string"}}},
                           {"name": "c", "in": "cookie", "schema": {"type": "string", "example": "s"}}],
            "responses": {"204": {"description": "n"}}}
@@ -472,14 +477,7 @@ func (w *c04Walker) doc(d map[string]any) {
 			w.add("contact", []any{"info", "contact"})
 		}
 	}
-	for i, s := range jlist(d["servers"]) {
-		w.add("server", []any{"servers", i})
-		if vs := asMap(asMap(s)["variables"]); vs != nil {
-			for _, k := range sortedKeys(vs) {
-				w.add("serverVar", []any{"servers", i, "variables", k})
-			}
-		}
-	}
+	w.servers([]any{"servers"}, d["servers"])
 	for i, t := range jlist(d["tags"]) {
 		w.add("tag", []any{"tags", i})
 		if asMap(asMap(t)["externalDocs"]) != nil {
@@ -519,6 +517,15 @@ func (w *c04Walker) doc(d map[string]any) {
 		sect("examples", "example", func(p []any, m map[string]any) { w.add("example", p) })
 		// (references under components.links are resolved by the loader since cbb0d05)
 		sect("links", "link", func(p []any, m map[string]any) { w.add("link", p) })
+		// callbacks: every key that is not an extension is a path item (the template rules of `paths` do not apply)
+		sect("callbacks", "callback", func(p []any, m map[string]any) {
+			w.add("callback", p)
+			for _, k := range sortedKeys(m) {
+				if pi := asMap(m[k]); pi != nil && !strings.HasPrefix(k, "x-") {
+					w.pathItem(append(p, k), pi)
+				}
+			}
+		})
 	}
 	if ps := asMap(d["paths"]); ps != nil {
 		w.add("paths", []any{"paths"})
@@ -527,34 +534,55 @@ func (w *c04Walker) doc(d map[string]any) {
 			if pi == nil || strings.HasPrefix(k, "x-") {
 				continue
 			}
-			p := []any{"paths", k}
-			w.add("pathItem", p)
-			if pi["parameters"] != nil {
-				w.params(append(p, "parameters"), pi["parameters"])
-			}
-			for _, m := range c04Methods {
-				op := asMap(pi[m])
-				if op == nil {
-					continue
-				}
-				q := append(p, m)
-				w.add("operation", q)
-				if op["parameters"] != nil {
-					w.params(append(q, "parameters"), op["parameters"])
-				}
-				w.refOr("requestBody", append(q, "requestBody"), op["requestBody"], w.requestBody)
-				if rs := asMap(op["responses"]); rs != nil {
-					w.add("responses", append(q, "responses"))
-					for _, code := range sortedKeys(rs) {
-						if !strings.HasPrefix(code, "x-") {
-							w.refOr("response", append(q, "responses", code), rs[code], w.response)
-						}
-					}
-				}
-				if asMap(op["externalDocs"]) != nil {
-					w.add("externalDocs", append(q, "externalDocs"))
+			w.pathItem([]any{"paths", k}, pi)
+		}
+	}
+}
+
+func (w *c04Walker) servers(path []any, v any) {
+	for i, s := range jlist(v) {
+		if asMap(s) == nil {
+			continue
+		}
+		w.add("server", append(path, i))
+		if vs := asMap(asMap(s)["variables"]); vs != nil {
+			for _, k := range sortedKeys(vs) {
+				if asMap(vs[k]) != nil {
+					w.add("serverVar", append(path, i, "variables", k))
 				}
 			}
+		}
+	}
+}
+
+func (w *c04Walker) pathItem(p []any, pi map[string]any) {
+	w.add("pathItem", p)
+	if pi["parameters"] != nil {
+		w.params(append(p, "parameters"), pi["parameters"])
+	}
+	w.servers(append(p, "servers"), pi["servers"]) // never validated by the code (F-C04-7)
+	for _, m := range c04Methods {
+		op := asMap(pi[m])
+		if op == nil {
+			continue
+		}
+		q := append(p, m)
+		w.add("operation", q)
+		if op["parameters"] != nil {
+			w.params(append(q, "parameters"), op["parameters"])
+		}
+		w.servers(append(q, "servers"), op["servers"]) // never validated by the code (F-C04-7)
+		w.refOr("requestBody", append(q, "requestBody"), op["requestBody"], w.requestBody)
+		if rs := asMap(op["responses"]); rs != nil {
+			w.add("responses", append(q, "responses"))
+			for _, code := range sortedKeys(rs) {
+				if !strings.HasPrefix(code, "x-") {
+					w.refOr("response", append(q, "responses", code), rs[code], w.response)
+				}
+			}
+		}
+		if asMap(op["externalDocs"]) != nil {
+			w.add("externalDocs", append(q, "externalDocs"))
 		}
 	}
 }
@@ -797,7 +825,7 @@ var c04DetachTargets = map[string]string{
 	"parameter": "#/components/parameters/Detached", "requestBody": "#/components/requestBodies/Detached",
 	"response": "#/components/responses/Detached", "header": "#/components/headers/Detached",
 	"example": "#/components/examples/Detached", "link": "#/components/links/Detached",
-	"securityScheme": "#/components/securitySchemes/Detached",
+	"securityScheme": "#/components/securitySchemes/Detached", "callback": "#/components/callbacks/Detached",
 }
 
 func replaceByRef(kind string, detach bool, extra map[string]any) func(*c04Builder, c04Site, map[string]any) {
@@ -829,7 +857,7 @@ func c04Injections() []c04Inj {
 		add("extra:summary2", cl, always, setKey("summary2", "s"))
 	}
 	// reference wrappers: siblings and unresolved
-	for _, k := range []string{"schema", "innerSchema", "parameter", "requestBody", "response", "header", "example", "link", "securityScheme"} {
+	for _, k := range []string{"schema", "innerSchema", "parameter", "requestBody", "response", "header", "example", "link", "securityScheme", "callback"} {
 		add("ref:sibling-bogus", "ref:"+k, always, setKey("bogus", 1))
 		add("ref:sibling-description", "ref:"+k, always, setKey("description", "d"))
 		add("ref:sibling-x", "ref:"+k, always, setKey("x-ext", 1))
@@ -837,7 +865,7 @@ func c04Injections() []c04Inj {
 	}
 	// value objects replaced by references (resolved / unresolved / with sibling)
 	for cl, k := range map[string]string{"schema": "schema", "parameter": "parameter", "requestBody": "requestBody", "response": "response",
-		"header": "header", "example": "example", "link": "link", "securityScheme": "securityScheme"} {
+		"header": "header", "example": "example", "link": "link", "securityScheme": "securityScheme", "callback": "callback"} {
 		kind := k
 		notComponent := func(m map[string]any) bool { return true }
 		add("toref:resolved", cl, notComponent, replaceByRef(kind, false, nil))
@@ -860,6 +888,15 @@ func c04Injections() []c04Inj {
 		m["variables"] = map[string]any{"env": map[string]any{"default": "p"}, "other": map[string]any{"default": "o"}}
 	})
 	add("serverVar:no-default", "serverVar", always, delKey("default"))
+	for _, cl := range []string{"pathItem", "operation"} {
+		add("servers:add-no-url(F-C04-7)", cl, always, setKey("servers", []any{map[string]any{"description": "no url"}}))
+		add("servers:add-undeclared-variable(F-C04-7)", cl, always, setKey("servers", []any{map[string]any{"url": "https://{zone}.example.com"}}))
+		add("servers:add-extra-field(F-C04-7)", cl, always, setKey("servers", []any{map[string]any{"url": "https://example.com", "bogus": 1}}))
+		add("servers:add-ok", cl, always, setKey("servers", []any{map[string]any{"url": "https://{zone}.example.com", "variables": map[string]any{"zone": map[string]any{"default": "a"}}, "x-s": 1}}))
+	}
+	add("callback:x-ext-ok", "callback", always, setKey("x-cb", 1))
+	add("callback:second-expression-bad-operation", "callback", always, setKey("{$request.query.u}", map[string]any{"get": map[string]any{"description": "no responses"}}))
+	add("callback:second-expression-ok", "callback", always, setKey("{$request.query.u}", map[string]any{"get": map[string]any{"responses": map[string]any{"204": map[string]any{"description": "n"}}}}))
 	// null entries: reported as invalid since 6bd2b91 (they used to make Validate panic)
 	add("root:servers-null-entry", "root", hasKey("servers"), func(_ *c04Builder, _ c04Site, m map[string]any) {
 		m["servers"] = append(append([]any{}, jlist(m["servers"])...), nil)
@@ -908,7 +945,7 @@ func c04Injections() []c04Inj {
 	add("link:none", "link", always, delKey("operationId"))
 	add("link:both", "link", always, setKey("operationRef", "#/paths/~1y/put"))
 	// components: malformed names
-	for _, s := range []string{"schemas", "parameters", "requestBodies", "responses", "headers", "securitySchemes", "examples", "links"} {
+	for _, s := range []string{"schemas", "parameters", "requestBodies", "responses", "headers", "securitySchemes", "examples", "links", "callbacks"} {
 		add("name:malformed", "section:"+s, always, func(_ *c04Builder, _ c04Site, m map[string]any) {
 			ks := sortedKeys(m)
 			m["bad name!"] = deepCopy(m[ks[len(ks)-1]])
@@ -1432,7 +1469,7 @@ func c04Case(doc map[string]any, detach []any, opts map[string]any, tag string, 
 func c04OptionSensitive(name string) bool {
 	for _, p := range []string{"extra:", "ref:", "toref:", "example", "schema:default", "schema:example", "schema:format", "schema:pattern",
 		"schema:nested", "schema:xml", "schema:discriminator", "mediaType:encoding-bogus", "mediaType:encoding-ok", "mediaType:no-schema", "param:content-",
-		"mediaType:two-encodings", "encoding:add-header", "encoding:bad-style"} {
+		"mediaType:two-encodings", "encoding:add-header", "encoding:bad-style", "servers:add-extra-field", "callback:x-ext"} {
 		if strings.HasPrefix(name, p) {
 			return true
 		}
